@@ -68,6 +68,7 @@ type TxTrace struct {
 	Tx     *types.Transaction
 	Index  int
 	Height uint32
+	Time   uint32 // timestamp of the block under execution (what native.GetTime() returns)
 	OK     bool
 	Events []*event.NotifyEventInfo
 	Pre    View
@@ -168,7 +169,7 @@ func (s *Sim) Trace(n *chain.Node, blk *types.Block, pend []*PendingTx) (*BlockT
 	for i := 0; i < k; i++ {
 		ra, rb := bt.Results[i], bt.Results[i+1]
 		cur := wsMap(rb.WriteSet)
-		t := &TxTrace{Tx: blk.Transactions[i], Index: i, Height: blk.Header.Height, Pre: View{n.L, ra.WriteSet}, Post: View{n.L, rb.WriteSet}, Writes: diffWS(prev, cur)}
+		t := &TxTrace{Tx: blk.Transactions[i], Index: i, Height: blk.Header.Height, Time: blk.Header.Timestamp, Pre: View{n.L, ra.WriteSet}, Post: View{n.L, rb.WriteSet}, Writes: diffWS(prev, cur)}
 		t.P = byHash[t.Tx.Hash()]
 		if len(rb.Notify) != i+1 || len(ra.Notify) != i {
 			return nil, fmt.Errorf("notify list length %d/%d for prefix %d", len(ra.Notify), len(rb.Notify), i)
